@@ -311,6 +311,7 @@ class C08Session:
                        "expr_zero_skipped": 0, "psi_pairs": 0}
         self.counts = {}
         self.itmd_fp = {}
+        self.selfcheck = []
         self.abort_n = []
         self._objs = None
 
@@ -516,6 +517,20 @@ class C08Session:
         if b == "n/a":
             return
         a = self.fp(after, sl["targets"])
+        if a is not None and a == b and not what.startswith("copy"):
+            # self-check of the structural oracle used by C19: a renaming of contracted
+            # indices that preserves the value must preserve the alpha-normal form
+            from .alpha import normal_form
+            n1 = normal_form(sl["expr"], sl["targets"], Index=self.Index)
+            n2 = normal_form(after, sl["targets"], Index=self.Index)
+            if n1 is None or n2 is None:
+                self.probes["anf_gaveup"] = self.probes.get("anf_gaveup", 0) + 1
+            else:
+                self.probes["anf_checked"] = self.probes.get("anf_checked", 0) + 1
+                if n1 != n2:
+                    self.selfcheck.append(f"alpha-normal forms differ although the values "
+                                          f"agree ({what}): {sl['expr']} -> {after} targets "
+                                          f"{sl['targets']}")
         if a is not None and a != b:
             self.viol("rename", "c-value", f"{what}: value changed (fingerprint {b} -> {a}); "
                       f"before {sl['expr']} after {after} targets {sl['targets']}")
@@ -1056,6 +1071,7 @@ def execute(job):
         "digest": digest(log),
         "events": sess.events if job.get("want_events") else None,
         "violations": sess.violations,
+        "selfcheck": sess.selfcheck,
         "stats": {"model": sess.model.stats, "probes": sess.probes, "ops": sess.counts,
                   "faults_fired": sess.fault_fired, "faults_missed": sess.fault_missed,
                   "abort_n": sess.abort_n,
